@@ -110,7 +110,8 @@ def locale_parts(prog, rep):
             tag = s.state.facts.get(('tag', ('param', 5)))
             if tag == 'pos' and ext != ('pos', ('param', 5)):
                 bad.append('given extensions are not stored as they are')
-            if tag == 'neg' and not (ext[0] == 'pure' and ext[1] == 'default'):
+            from . import c13
+            if tag == 'neg' and not (ext[0] == 'pure' and ext[1] == 'default') and not (c13.default_struct(ext) and ext[0] != 'lv'):
                 bad.append('absent extensions are not the default')
         rep.ob('parts:Locale::from_parts', 'PAIR-PARTS', fn, b['span'], 'Locale::from_parts = {id: LanguageIdentifier::from_parts(..), extensions: given or default}', not bad and segs,
                detail='\n'.join(sorted(set(bad))[:4]))
